@@ -200,8 +200,7 @@ def overlay(fields, pairs):
         if v.startswith("~"):
             optional = True
             v = v[1:]
-            if "~" in v:
-                flags.add("inner_tilde")
+            # (only the PREFIX is the option sign: '~a~b' stands for the optional value 'a~b')
             if v == "":
                 flags.add("bare_tilde")
         # (a value that merely CONTAINS '~' is an ordinary value: only the prefix marks it optional)
